@@ -556,7 +556,15 @@ pub fn run(cfg: &Cfg) -> i32 {
                 // listed finding (C01 cl22-cli-frontend-optimiser): with the frontend optimiser, which the command line
                 // switches on for cl22, function bodies are miscompiled.  A wrong function result in such a build is
                 // attributed to it only when the same program's build with that optimiser off was judged clean.
-                let sig = if d == Dialect::Cl22 && label.starts_with("cli") && library_clean { Some("cl22:cli-frontend-optimiser") } else { None };
+                let sig = if d == Dialect::Cl22 && label.starts_with("cli") && library_clean {
+                    Some("cl22:cli-frontend-optimiser")
+                } else if d == Dialect::StrictCl21 && label.ends_with("-O") && library_clean {
+                    // listed finding (C02 strict-cl21-optimise-flag): with the optimise flag *strict-cl-21* programs run their
+                    // conditionals in the environment 64; same counterfactual (the build without the flag is clean)
+                    Some("c02:strict-cl21-optimise-flag")
+                } else {
+                    None
+                };
                 let ok = judge(&mut out, &mut rng, &Cell { case: &case, d, build: label, optimised }, c, sig);
                 if *label == "library" {
                     library_clean = ok;
